@@ -36,9 +36,13 @@ func c06Plan(tier string, seed uint64) (jobs []rt.Job) {
 	}
 	// tall trees under the leaf seam: index / randomiser / WOTS part of signatures at large indices
 	// (real chains, real OTS addresses) against the reference, authentication path against the seam tree
-	th := []int{12, 16}
+	for hf := 0; hf < 3; hf++ {
+		sd := rng.Seed48()
+		jobs = append(jobs, rt.Job{ID: fmt.Sprintf("C06/msglen/%s", hashNames[hf]), Kind: "msglen", Cost: 8, Args: map[string]interface{}{"hf": hf, "seed": rt.Hex(sd[:]), "max": map[bool]int{true: 700, false: 3000}[tier == "quick"]}})
+	}
+	th := []int{12, 16, 18}
 	if tier == "thorough" {
-		th = []int{12, 14, 16, 18, 20}
+		th = []int{12, 14, 16, 18, 20, 22}
 	}
 	for _, h := range th {
 		for hf := 0; hf < 3; hf++ {
@@ -48,6 +52,9 @@ func c06Plan(tier string, seed uint64) (jobs []rt.Job) {
 			s := rng.Seed48()
 			c := XCfg{H: h, HF: hf, Seed: rt.Hex(s[:]), Seam: true}
 			a := c.args()
+			if tier == "quick" && h >= 18 {
+				a["upto"] = 70000 // quick: large indices just beyond 2^16, not the whole life
+			}
 			jobs = append(jobs, rt.Job{ID: fmt.Sprintf("C06/%s/seam-prefix", c), Kind: "seam-prefix", Cost: float64(uint(1)<<uint(h)) * 0.0001, Args: a})
 		}
 	}
@@ -144,12 +151,17 @@ func c06SeamPrefix(j *rt.Job, seed uint64, r *rt.Rec) {
 		if n > 65536 {
 			set[65535], set[65536], set[65537] = true, true, true
 		}
+		limit := n
+		if u := uint32(j.Int("upto")); u > 0 && u < n {
+			limit = u
+			set[66000], set[69999] = true, true
+		}
 		for len(set) < 40 {
-			set[uint32(rng.Intn(int(n)))] = true
+			set[uint32(rng.Intn(int(limit)))] = true
 		}
 		var idxs []uint32
 		for v := range set {
-			if v < n {
+			if v < limit {
 				idxs = append(idxs, v)
 			}
 		}
@@ -182,7 +194,47 @@ func c06SeamPrefix(j *rt.Job, seed uint64, r *rt.Rec) {
 	})
 }
 
+// c06MsgLen: every message length 0..max (and a nil message), signed by fresh height-4 keys at successive
+// indices, against the reference.
+func c06MsgLen(j *rt.Job, seed uint64, r *rt.Rec) {
+	c := XCfg{H: 4, HF: j.Int("hf"), Seed: j.Str("seed")}
+	ref := c.newRef()
+	var lib *xmss.XMSS
+	max := j.Int("max")
+	for l := -1; l <= max; l++ {
+		idx := uint32((l + 1) % 16)
+		if idx == 0 {
+			lib = c.newLib()
+		}
+		var msg []byte // l == -1: nil message
+		if l >= 0 {
+			buf := rt.NewRand(uint64(l), "msglen/"+c.Seed).Bytes(l + 24)
+			msg = buf[: l : l+24] // spare capacity behind the message must stay untouched
+			copy(buf[l:], "CANARY-CANARY-CANARY-CAN")
+			defer func(b []byte, l int) {
+				if string(b[l:l+24]) != "CANARY-CANARY-CANARY-CAN" {
+					r.Violate("C06/caller-buffer", fmt.Sprintf("Sign wrote into the spare capacity behind a %d-byte message", l), jobCase(j), "", "")
+				}
+			}(buf, l)
+		}
+		sig, err := lib.Sign(msg)
+		r.Eval(1)
+		if err != nil || sigDiff(ref.Sign(idx, msg), sig) != "" {
+			r.Violate("C06/sig/message-length", fmt.Sprintf("signature of a %d-byte message (nil=%v) at index %d differs from the reference (%s)", len(msg), msg == nil, idx, c), jobCase(j), "", "")
+			return
+		}
+		r.Count("signatures_equal", 1)
+		r.Distinct("msglen", c.HF, l)
+	}
+	r.Observe("exhaustive", fmt.Sprintf("%s: every message length 0..%d and nil", hashNames[c.HF], max))
+	r.Sample(map[string]interface{}{"message_length_sweep": []int{0, max}, "hash": hashNames[c.HF], "nil_message": true})
+}
+
 func c06Run(j *rt.Job, seed uint64, r *rt.Rec) {
+	if j.Kind == "msglen" {
+		c06MsgLen(j, seed, r)
+		return
+	}
 	if j.Kind == "seam-prefix" {
 		c06SeamPrefix(j, seed, r)
 		return
